@@ -5,10 +5,11 @@ open FatVerif.FileSim DirEntryData DirAlias
 
 section generic
 variable {Inv : Dev → Prop} {F G : Nat → DirStream} {N : Nat} {src room : Nat → Nat} {Extra : Nat → Prop}
+  {DropPost : Img → Img → Prop}
 
 /-- **`create_file(name)`, generic**, single-component path, free name, `alloc` feature -/
 theorem WFam.createFile (IO : InvOK Inv) (hg : SlotGeo N src) (W : WFam Inv F G N src room)
-    (WG : WFam Inv G G N src room) (O : WOps Inv F G N src room Extra) (env : Env) (path name : String)
+    (WG : WFam Inv G G N src room) (O : WOps Inv F G N src room Extra DropPost) (env : Env) (path name : String)
     (hsp : Names.splitPath path = (name, none)) (hdot : (name = "." || name = "..") = false)
     (hval : Names.validateLongName name = .ok ()) (d : Dev) (hinv : Inv d) (ha : d.fs.lfnAlloc = true) (a : List Nat)
     (hchk : DirAlias.checkForExistenceL env.upper (srcSlots d.img src N) name (some false) 70000 = .ok (.alias a))
@@ -20,21 +21,21 @@ theorem WFam.createFile (IO : InvOK Inv) (hg : SlotGeo N src) (W : WFam Inv F G 
       VolStep d d' ∧ d'.fs.curDirty = true ∧ Inv d' ∧
       srcSlots d'.img src N = DirSlots.writeEntry (srcSlots d.img src N) (Names.encodeUtf16 name.toList)
         (sfnAt d.fs d.clock a 0 none).serialize ∧
-      FrameOutE N src Extra d d' := by
+      FrameOutE N src Extra d d' ∧ MidImg N src DropPost d d' := by
   have hce := (O.dsrc d hinv).checkForExistence_sim (O.fuel d hinv) ha env name (some false) d (SameVol.refl d)
   rw [hchk] at hce
   obtain ⟨d1, h1, hs1⟩ := hce
   have hinv1 := IO.vol d d1 hinv hs1 (run_clock _ _ _ _ h1)
   obtain ⟨hcan, hl11, _⟩ := C16dir.dir_alias_canon env.upper (srcSlots d.img src N) name (some false) 70000 a hchk
   have hrawwf := sfnAt_wf d.fs d.clock a 0 none hl11 (canon_lt hcan) (by omega)
-  obtain ⟨d2, h2, hs2, hd2, hinv2, hsl2, hfr2⟩ := W.writeEntry IO hg WG O name (sfnAt d.fs d.clock a 0 none) hval hdot
+  obtain ⟨d2, h2, hs2, hd2, hinv2, hsl2, hfr2, im, him1, him2⟩ := W.writeEntry IO hg WG O name (sfnAt d.fs d.clock a 0 none) hval hdot
     hrawwf d1 hinv1 (by rw [hs1.img]; exact hfit)
   rw [hs1.img] at h2 hsl2
   generalize hnum : Lfn.numParts (Names.encodeUtf16 name.toList).length + 1 = num at h2
   generalize hp : DirSlots.findFree (srcSlots d.img src N) num = p at h2
   refine ⟨d2, ⟨sfnAt d.fs d.clock a 0 none, Names.encodeUtf16 name.toList, src (32 * (p + num) - 32) + 32 - 32, 32 * p,
     32 * (p + num)⟩, ?_, rfl, rfl, (VolStep.of_sameVol hs1).trans hs2, hd2, hinv2, hsl2, fun q hq hn he => by
-    rw [hfr2 q hq hn he, hs1.img]⟩
+    rw [hfr2 q hq hn he, hs1.img], ⟨im, fun q hq hn => by rw [him1 q hq hn, hs1.img], him2⟩⟩
   unfold FatVerif.createFile
   rw [run_bind_ok (run_getFs d), hsp]
   simp only [hdot, Bool.false_eq_true, if_false]
